@@ -8,30 +8,31 @@ VARIABLE l
 InitT == l \in 1..Len(Obs) /\ RInit
 NextT == UNCHANGED <<l, cur, nopt, nset, wire, cstep>>
 o == Obs[l]
+E == ExpAll(o.resps)      \* the frames the scripted responses put on the wire (a response may be written more than once)
 Bad(what, i, exp, got) == Print(<<"MISMATCH", what, l, i, exp, got>>, FALSE)
 \* one well-formed frame per Write, in order, nothing else, each with the request's message id
-FramesConform == (o.nframes = Len(o.resps) /\ o.parse_ok /\ \A i \in 1..Len(o.frames) : o.frames[i].msgid_ok)
-                    \/ Bad("frames", 0, Len(o.resps), o.nframes)
+FramesConform == (o.nframes = Len(E) /\ o.parse_ok /\ \A i \in 1..Len(o.frames) : o.frames[i].msgid_ok)
+                    \/ Bad("frames", 0, Len(E), o.nframes)
 \* protocolOp tag: the constructor's, or the application code given
-TagConforms == \A i \in 1..Len(o.frames) : i > Len(o.resps) \/
-                 o.frames[i].tag = Build(o.resps[i]).tag \/ Bad("tag", i, Build(o.resps[i]).tag, o.frames[i].tag)
+TagConforms == \A i \in 1..Len(o.frames) : i > Len(E) \/
+                 o.frames[i].tag = E[i].tag \/ Bad("tag", i, E[i].tag, o.frames[i].tag)
 \* result code, matched DN, diagnostic message: exactly what options and setters set (unset fields are free)
-ResultConforms == \A i \in 1..Len(o.frames) : i > Len(o.resps) \/
-   LET b == Build(o.resps[i])  f == o.frames[i] IN
+ResultConforms == \A i \in 1..Len(o.frames) : i > Len(E) \/
+   LET b == E[i]  f == o.frames[i] IN
    b.kind = "entry" \/
    ( /\ (b.setcode => f.code = b.code) /\ (b.setmatched => f.matched = b.matched) /\ (b.setdiag => f.diag = b.diag) )
    \/ Bad("result", i, b, f)
 \* entries: DN, the WithAttributes map (any order) followed by the AddAttribute calls in order
 SetOf(s) == {s[i] : i \in 1..Len(s)}
-EntryConforms == \A i \in 1..Len(o.frames) : i > Len(o.resps) \/
-   LET b == Build(o.resps[i])  f == o.frames[i] IN
+EntryConforms == \A i \in 1..Len(o.frames) : i > Len(E) \/
+   LET b == E[i]  f == o.frames[i] IN
    b.kind # "entry" \/
    ( /\ f.dn = "dnsym" /\ Len(f.attrs) = Len(b.map) + Len(b.added)
      /\ SetOf(SubSeq(f.attrs, 1, Len(b.map))) = SetOf(b.map)
      /\ SubSeq(f.attrs, Len(b.map) + 1, Len(f.attrs)) = b.added )
    \/ Bad("entry", i, b, f)
 \* controls: those set on Bind / SearchDone responses, in order; none otherwise
-ControlsConform == \A i \in 1..Len(o.frames) : i > Len(o.resps) \/
-   LET b == Build(o.resps[i])  f == o.frames[i] IN
+ControlsConform == \A i \in 1..Len(o.frames) : i > Len(E) \/
+   LET b == E[i]  f == o.frames[i] IN
    f.ctls = [k \in 1..Len(b.ctls) |-> Decode(Wire(b.ctls[k]))] \/ Bad("controls", i, b.ctls, f.ctls)
 =============================================================================
